@@ -159,7 +159,7 @@ func (m *mdrv) Call(fn string, msg int, o pr.Opts) (ret string) {
 			defer atomic.AddInt64(&m.inCb, -1)
 			k := pr.MsgID(msg)
 			if m.slow {
-				time.Sleep(300 * time.Microsecond) // widen the window in which stop() can race with a callback in flight
+				time.Sleep(1500 * time.Microsecond) // widen the window in which stop() can race with a callback in flight
 			}
 			m.mu.Lock()
 			if late {
@@ -206,6 +206,10 @@ func (m *mdrv) burstStop(q []int) string {
 	}
 	running := int64(0)
 	if m.stop != nil {
+		// call stop() while a delivery is in flight if there is going to be one: wait (bounded) for a callback to start
+		for dl := time.Now().Add(30 * time.Millisecond); atomic.LoadInt64(&m.inCb) == 0 && time.Now().Before(dl); {
+			time.Sleep(20 * time.Microsecond)
+		}
 		m.stop()
 		running = atomic.LoadInt64(&m.inCb) // read immediately after stop() returned
 		m.stoppedL.Store(m.curL, true)
